@@ -194,7 +194,7 @@ def framing_records(d, out):
             last = (k + W >= max(len(sent), len(dl))) and (k + W >= max(len(hand), len(written)))
             recs.append(dict(k="frame", id="%s/%s-to-%s@%d" % (sid, frm, other, k), role="acceptor" if other == "acc" else "initiator", conn=0,
                              sent=sent[k:] if last else sent[k:k + W], chunks=[o["chunks"]], delivered=dl[k:] if last else dl[k:k + W],
-                             handoff=hand[k:] if last else hand[k:k + W], written=written[k:] if last else written[k:k + W], overlap=False, writeFault=False))
+                             handoff=hand[k:] if last else hand[k:k + W], written=written[k:] if last else written[k:k + W], overlap=False, writeFault=False, stopped=0))
             if last:
                 break
             k += W
